@@ -584,6 +584,9 @@ def render_scenario(cases, items):
             s = "See § 99."
         if k % 3 == 2:
             s += " The court agreed."
+        if it.get("filler"):
+            from forms import LONG
+            s = LONG + s
         spans.append([pos, pos + len(s)])
         parts.append(s)
         pos += len(s) + 1
